@@ -522,9 +522,13 @@ TrToolSumFault == IsEv("tool.sumfault") /\ LET ev == T[l] IN
 TrToolSumListFault == IsEv("tool.sumlistfault") /\ LET ev == T[l] IN
   IF ev.tripped = 1 THEN Step(objs, <<0, TRUE, 1>>, <<ev.gen_exit, ev.exit # 0, ev.stderr>>)
   ELSE Step(objs, <<0, 0, ev.nfiles>>, <<ev.gen_exit, ev.exit, ev.nok>>)
+\* a failed write to standard output: lost digests or verdicts are not a success
+TrToolSumWriteFault == IsEv("tool.sumwritefault") /\ LET ev == T[l] IN
+  IF ev.tripped = 1 THEN Step(objs, <<0, TRUE, 1>>, <<ev.gen_exit, ev.exit # 0, ev.stderr>>)
+  ELSE Step(objs, <<0, 0, 1>>, <<ev.gen_exit, ev.exit, ev.complete>>)
 \* C12: any argument vector - no signal, no sanitizer report
 TrToolArgs == IsEv("tool.args") /\ LET ev == T[l] IN Step(objs, <<0, 0>>, <<ev.signaled, ev.sanitizer>>)
-ToolNext == TrToolCrypt \/ TrToolGenKey \/ TrToolSum \/ TrToolSumCheck \/ TrToolSumFault \/ TrToolSumListFault \/ TrToolArgs
+ToolNext == TrToolCrypt \/ TrToolGenKey \/ TrToolSum \/ TrToolSumCheck \/ TrToolSumFault \/ TrToolSumListFault \/ TrToolSumWriteFault \/ TrToolArgs
 
 -----------------------------------------------------------------------------
 (* C18: assembly back ends.  asm.permute: one call of a permutation entry  *)
